@@ -50,7 +50,11 @@ func verifRuleIn(r *rules.NetworkRule, rs []*rules.NetworkRule) bool {
 func verifC01(n, shape, domLen, urlLen, srcLen, srcTail int) {
 	// domLen >= 100 selects the alphabet of URL-like shortcuts ("http", "ws:", ... see isAnyURLShortcut)
 	rules.VerifTableAlphabet = "ab:/"
-	if domLen >= 100 {
+	if domLen >= 200 {
+		// real-hash jobs: an alphabet in which the real djb2 has collisions on 5-byte windows ("aaac/" and "aac/a")
+		domLen -= 200
+		rules.VerifTableAlphabet = "ac/"
+	} else if domLen >= 100 {
 		domLen -= 100
 		rules.VerifTableAlphabet = "htps:/w"
 	}
